@@ -18,17 +18,27 @@ Record case := mk_case {
                           range proof according to core's RangeProofSize (law check),
                           5 account-paid RPC (read / verify / write a sector): c_args =
                           [account balance before; cost], c_has = [request valid; HasSector],
-                          c_ok = the renter was served, c_out = [account balance after] *)
+                          c_ok = the renter was served, c_out = [account balance after],
+                          6 funding the account from the contract: c_args = [amount; account
+                          balance before], c_out = [account balance after],
+                          7 renewal of the contract (see check_renew) *)
   c_roots : list N;    (* stored roots before *)
   c_args : list N;     (* free: indices; append: sector roots; listing: [offset; length] *)
   c_has : list bool;   (* append: whether the harness had uploaded the sector (HasSector) *)
   c_script : N;        (* 0 complete; 1 stream closed after the request, response not read;
                           2 closed after reading the first response; 3 invalid renter
                           signature; 4 valid signature sent, stream closed without reading
-                          the host's signature; 5 stream opened and closed *)
+                          the host's signature; 5 half of the request written; 6 half of the
+                          signature message written; 7 complete, with the request [c_other]
+                          on another stream between the first response and the signature *)
   c_ok : bool;         (* observed: the revision number advanced *)
   c_after : list N;    (* observed: stored roots after *)
   c_out : list N;      (* observed answer: append: accepted flags as 0/1; listing: the roots *)
+  c_flags : list bool; (* [contract known and lockable; challenge signature valid; price table
+                          valid; the contract can pay the usage] — all true when empty *)
+  c_other : list N;    (* script 7: the request on the other stream: [1; indices…] free,
+                          [2; stored roots…] append, [3; offset; length] listing, [6; amount]
+                          funding *)
   c_aux : N            (* listing: 1 + number of hashes in the host's proof (0: not observed);
                           kind 4: 1 + core's RangeProofSize for c_args = [n; offset; length] *)
 }.
@@ -46,35 +56,62 @@ Definition host_of (roots : list N) : host :=
     before duplicates matter). *)
 Definition nats (l : list N) : list nat := map (λ x, N.to_nat (N.min x 4096)) l.
 
+Definition flag_at (c : case) (i : nat) : bool := nth i (c_flags c) true.
+
+(** a usage the contract cannot pay *)
+Definition usage_of (c : case) : usage :=
+  if flag_at c 3 then usage_run else mk_usage (big + 1) 0.
+
 Definition request_of (c : case) : option request :=
+  let lk := flag_at c 0 in let ch := flag_at c 1 in let pr := flag_at c 2 in
+  let u := usage_of c in
+  let sg := negb (N.eqb (c_script c) 3) in
   match c_kind c with
-  | 0%N => Some (FreeReq (normalize (nats (c_args c))) true true true usage_run)
-  | 1%N => Some (FreeReq (nats (c_args c)) true true true usage_run)
-  | 2%N => Some (AppendReq (combine (c_args c) (c_has c)) true true true usage_run)
+  | 0%N => Some (FreeReq (normalize (nats (c_args c))) lk ch pr u)
+  | 1%N => Some (FreeReq (nats (c_args c)) lk ch pr u)
+  | 2%N => Some (AppendReq (combine (c_args c) (c_has c)) lk ch pr u)
   | 3%N => match c_args c with
            | [off; len] =>
-               Some (RootsReq (N.to_nat (N.min off 4096)) (N.to_nat (N.min len 4096)) true true
-                       (negb (N.eqb (c_script c) 3)) usage_run)
+               Some (RootsReq (N.to_nat (N.min off 4096)) (N.to_nat (N.min len 4096)) lk pr sg u)
            | _ => None
            end
+  | 6%N => match c_args c with
+           | [amount; _] => Some (FundReq (negb (N.eqb amount 0)) lk sg amount)
+           | _ => None
+           end
+  | _ => None
+  end.
+
+(** the request on the other stream (all oracle fields true: it is an honest request) *)
+Definition other_of (c : case) : option request :=
+  match c_other c with
+  | 1%N :: idxs => Some (FreeReq (nats idxs) true true true usage_run)
+  | 2%N :: roots => Some (AppendReq (map (λ r, (r, true)) roots) true true true usage_run)
+  | [3%N; off; len] => Some (RootsReq (N.to_nat (N.min off 4096)) (N.to_nat (N.min len 4096)) true true true usage_run)
+  | [6%N; amount] => Some (FundReq true true true amount)
   | _ => None
   end.
 
 Definition script_of (c : case) (r : request) : list event :=
   match c_script c with
   | 0%N | 4%N => [ENew; EMsg (MReq r); EMsg (MSig true)]
-  | 1%N | 2%N => [ENew; EMsg (MReq r)]
+  | 1%N | 2%N | 6%N => [ENew; EMsg (MReq r)]
   | 3%N => [ENew; EMsg (MReq r); EMsg (MSig false)]
+  | 7%N => match other_of c with
+           | Some o => [ENew; EMsg (MReq r); EOther o; EMsg (MSig true)]
+           | None => []
+           end
   | _ => [ENew]
   end.
 
 Definition flag (b : bool) : N := if b then 1%N else 0%N.
 
-(** the host's answer is compared only where the harness read it *)
+(** the host's answer is compared only where the harness read it (an empty [c_out] means it
+    did not: accepted flags and listed roots are never empty when read) *)
 Definition out_matches (c : case) (outs : list out) : bool :=
-  match c_script c with
-  | 1%N | 5%N => true
-  | _ =>
+  match c_script c, c_out c with
+  | 1%N, _ | 5%N, _ | _, [] => true
+  | _, _ =>
       match c_kind c with
       | 2%N => match outs with
                | OAppendResp acc _ :: _ => bool_decide (map flag acc = c_out c)
@@ -124,15 +161,38 @@ Definition check_acct (c : case) : bool :=
   | _, _, _ => false
   end.
 
+(** funding: the account balance is part of the case *)
+Definition acct_matches (c : case) (h : host) : bool :=
+  match c_kind c, c_out c with
+  | 6%N, [bal'] => N.eqb (h_account h) bal'
+  | 6%N, _ => false
+  | _, _ => true
+  end.
+
+(** kind 7: RPCRenewContract; c_roots = roots of the renewed contract, c_after = roots the
+    host stores for the renewal *)
+Definition check_renew (c : case) : bool :=
+  let h := renew (host_of (c_roots c)) big 0 big in
+  bool_decide (h_roots h = c_after c)
+  && bool_decide (mroot (c_after c) = r_root (h_rev h))
+  && N.eqb (N.of_nat (length (c_after c)) * sector_size) (r_size (h_rev h)).
+
 Definition check_case (c : case) : bool :=
   if N.eqb (c_kind c) 4 then check_law c else
+  if N.eqb (c_kind c) 7 then check_renew c else
   if N.eqb (c_kind c) 5 then check_acct c else
   match request_of c with
   | None => false
   | Some r =>
-      let '(s, outs) := exec_outs Copied (init (host_of (c_roots c))) (script_of c r) [] in
+      let h0 := host_of (c_roots c) in
+      let h0 := match c_kind c, c_args c with
+                | 6%N, [_; bal] => mk_host (h_roots h0) (h_rev h0) bal
+                | _, _ => h0
+                end in
+      let '(s, outs) := exec_outs Copied (init h0) (script_of c r) [] in
       let h := hs_host s in
       bool_decide (h_roots h = c_after c)
+      && acct_matches c h
       && Bool.eqb (negb (N.eqb (r_num (h_rev h)) 1)) (c_ok c)
       && out_matches c outs
       && proof_len_matches c outs
